@@ -16,6 +16,15 @@ usage: c13_sites.py <repo> <outdir>
   select* / for_each_concurrent / spawn / JoinSet in FILES, with the head of its argument.
 * shared_state_sites: every thread_local! static, `static mut` and static with interior mutability in FILES (state that survives
   from one evaluation / walk / report to the next).
+* interior_mutable_sites (round 5): every struct field whose type, and every constructor call `X::new( / X::default(` whose X, is a
+  cell that can be written through a shared reference (Mutex / FutMutex / RwLock / Atomic* / RefCell / Cell / Once* / Lazy /
+  UnsafeCell / CacheMap) in FILES — statics or not: a budget, counter or cache shared by the per-thread walk futures is one of these.
+* walk_future_captures / walk_future_steps / walk_future_interior_mutations (round 5): the closure handed to join_all in
+  into_process_state must have the shape `.map(|(i, (stack, thread))| async move { ... })`; listed are (1) every name of the
+  enclosing scopes the body uses (the `let`s of the block around the join_all with their initialisers, the fn's parameters, self),
+  (2) the top-level statements of the body in order, each with the captured names it uses and whether it awaits — so anything
+  'charged' after walk_stack(..).await is a new step, (3) every call of a writing method of a cell (fetch_*, store, swap, lock,
+  borrow_mut, set, replace, compare_exchange*, get_or_init ..) inside the body.
 * lsb_aliases: the match arms of `impl From<MinidumpLinuxLsbRelease<'_>> for LinuxStandardBase`, which must be a `for (key, val)
   in linux_standard_base.iter()` over the lines in file order whose arms assign `lsb.<field>`.
 coq/C13/Sites.v lists the sites the theorems cover and why each is harmless; C13/Properties proves the generated lists equal
@@ -445,6 +454,160 @@ def rhs_is_hash(rhs, hash_fns, fields):
     return False
 
 
+CELL_NAMES = r"(?:\w*Mutex|RwLock|Atomic\w+|RefCell|Cell|OnceCell|OnceLock|Lazy|LazyLock|UnsafeCell|CacheMap|Semaphore)"
+CELL_METHODS = ["fetch_\\w+", "store", "swap", "lock", "try_lock", "borrow_mut", "set", "replace", "take", "compare_exchange\\w*",
+                "compare_and_swap", "get_or_init", "get_or_insert_with", "get_mut", "write", "cache_default", "cache"]
+
+
+def scan_cells(path, label):
+    """struct fields / constructor calls of interior-mutable cells in the non-test code of one file"""
+    sc = Scan(path, label)
+    s = sc.s
+    out = []
+    for m in re.finditer(r"\bstruct\s+(\w+)[^;{(]*\{", s):
+        op = m.end() - 1
+        cl = match_close(s, op)
+        body = s[op + 1:cl]
+        # fields at depth 0 of the struct body
+        depth, start = 0, 0
+        parts = []
+        for k, ch in enumerate(body):
+            if ch in "<([{":
+                depth += 1
+            elif ch in ">)]}":
+                depth -= 1
+            elif ch == "," and depth == 0:
+                parts.append(body[start:k])
+                start = k + 1
+        parts.append(body[start:])
+        for part in parts:
+            part = re.sub(r"#\[[^\]]*\]", "", part)
+            fm = re.match(r"\s*(?:pub(?:\([^)]*\))?\s+)?(\w+)\s*:\s*(.+)$", part.strip(), re.S)
+            if fm and re.search(r"\b" + CELL_NAMES + r"\b", fm.group(2)):
+                out.append((m.start(), (label, "struct " + m.group(1) + "." + fm.group(1), norm(fm.group(2)))))
+    for m in re.finditer(r"\b(" + CELL_NAMES + r")\s*(?:::<[^>]*>\s*)?::\s*(new|default|with_capacity|const_new)\s*\(", s):
+        st = m.start()
+        while st > 0 and s[st - 1] not in ";{},":
+            st -= 1
+        cl = match_close(s, s.find("(", m.end() - 1))
+        out.append((m.start(), (label, sc.fn_at(m.start()), norm(sc.src[st:cl + 1])[:200])))
+    out.sort(key=lambda x: x[0])
+    return [t for _, t in out]
+
+
+def split_statements(s, src, a, b):
+    """top-level statements of the block body s[a:b] (s = blanked text, src = text with string contents)"""
+    stmts, depth, start, k = [], 0, a, a
+    while k < b:
+        ch = s[k]
+        if ch in "([{":
+            depth += 1
+        elif ch in ")]}":
+            depth -= 1
+            if depth == 0 and ch == "}":
+                # a block statement ends here unless an `else`, a method call, `?` or `;` continues it
+                rest = s[k + 1:b].lstrip()
+                if not (rest.startswith("else") or rest.startswith(".") or rest.startswith("?") or rest.startswith(";") or rest.startswith(")")):
+                    head = s[start:k + 1].lstrip()
+                    if re.match(r"(if|for|while|loop|match|unsafe|\{)\b|\{", head):
+                        stmts.append((start, k + 1))
+                        start = k + 1
+        elif ch == ";" and depth == 0:
+            stmts.append((start, k + 1))
+            start = k + 1
+        k += 1
+    if s[start:b].strip():
+        stmts.append((start, b))
+    return [(x, y) for x, y in stmts if s[x:y].strip()]
+
+
+def walk_futures(repo):
+    """the closure handed to join_all in MinidumpInfo::into_process_state"""
+    label = label_of("minidump-processor/src/processor.rs")
+    sc = Scan(os.path.join(repo, "minidump-processor/src/processor.rs"), label)
+    s, src = sc.s, sc.src
+    spans = [(a, b) for a, b, n in sc.fn_spans if n == "into_process_state"]
+    if len(spans) != 1:
+        die("into_process_state: expected exactly one fn of that name, found %d" % len(spans))
+    fa, fb = spans[0]
+    js = [m.start() for m in re.finditer(r"\bjoin_all\s*\(", s[fa:fb])]
+    if len(js) != 1:
+        die("into_process_state: expected exactly one join_all(..), found %d (how are the per-thread walks driven now?)" % len(js))
+    j = fa + js[0]
+    op = s.find("(", j)
+    cl = match_close(s, op)
+    arg = s[op + 1:cl]
+    mm = re.search(r"\.map\(\s*\|\s*\(\s*(\w+)\s*,\s*\(\s*(\w+)\s*,\s*(\w+)\s*\)\s*\)\s*\|\s*async\s+move\s*\{", arg)
+    if not mm:
+        die("into_process_state: the join_all argument is not `<iter>.map(|(i, (stack, thread))| async move { .. })`: " + norm(arg)[:200])
+    bop = op + 1 + mm.end() - 1
+    bcl = match_close(s, bop)
+    if norm(s[bcl + 1:cl]) not in (")", "),"):
+        die("into_process_state: something follows the async block inside join_all(..): " + norm(s[bcl + 1:cl])[:120])
+    params = [mm.group(1), mm.group(2), mm.group(3)]
+    body = s[bop + 1:bcl]
+    # names visible from outside: lets of the enclosing blocks before the join_all (innermost block first), fn parameters, self
+    outer = {}
+    pos = j
+    while True:
+        # opening brace of the block containing pos
+        depth, k = 0, pos - 1
+        while k > fa:
+            if s[k] in ")]}":
+                depth += 1
+            elif s[k] in "([{":
+                if depth == 0:
+                    break
+                depth -= 1
+            k -= 1
+        if k <= fa:
+            blk = fa
+        else:
+            blk = k
+        for a, b in split_statements(s, src, blk + 1, pos):
+            lm = re.match(r"\s*let\s+(?:mut\s+)?(\w+)\s*(?::[^=;]+)?=(?!=)", s[a:b])
+            if lm and lm.group(1) not in outer:
+                outer[lm.group(1)] = "let:" + norm(src[a + lm.end():b]).rstrip(";")[:120]
+        if blk == fa:
+            break
+        pos = blk
+    # the fn's parameters
+    sig_op = s.rfind("(", 0, fa)
+    hdr = s[:fa]
+    fm = list(re.finditer(r"\bfn\s+into_process_state\b", hdr))[-1]
+    pop = s.find("(", fm.end())
+    pcl = match_close(s, pop)
+    for part in re.split(r",(?![^<]*>)", s[pop + 1:pcl]):
+        pm = re.match(r"\s*(?:mut\s+)?(\w+)\s*(?::\s*(.+))?$", part.strip(), re.S)
+        if pm and pm.group(1) and pm.group(1) not in outer:
+            outer[pm.group(1)] = "param:" + norm(pm.group(2) or "")
+    shadow = set(params)
+    for lm in re.finditer(r"\blet\s+(?:mut\s+)?(\w+)\b", body):
+        shadow.add(lm.group(1))
+    used = []
+    for m in re.finditer(r"(?<![\w.])([A-Za-z_]\w*)\b(?!\s*(?:::|!|\())", body):
+        n = m.group(1)
+        if n in outer and n not in shadow and n not in used:
+            # a field initialiser / struct field `name:` is not a use
+            if re.match(r"\s*:[^:]", body[m.end():m.end() + 3]):
+                continue
+            used.append(n)
+    captures = [(label, "into_process_state/walk future", "%s=%s" % (n, outer[n])) for n in used]
+    steps = []
+    for a, b in split_statements(s, src, bop + 1, bcl):
+        text = norm(src[a:b])
+        names = [n for n in used if re.search(r"(?<![\w.])" + re.escape(n) + r"\b", s[a:b])]
+        steps.append((label, "into_process_state/walk future",
+                      "%s|uses:%s%s" % (text[:90], ",".join(names), "|awaits" if re.search(r"\.await\b", s[a:b]) else "")))
+    if not any("|awaits" in t[2] and t[2].startswith("walk_stack(") for t in steps):
+        die("into_process_state: no top-level `walk_stack(..).await` statement in the per-thread future: " + "; ".join(t[2][:40] for t in steps))
+    muts = []
+    for m in re.finditer(r"\.\s*(%s)\s*\(" % "|".join(CELL_METHODS), body):
+        r0 = path_start(body, m.start())
+        muts.append((label, "into_process_state/walk future", norm(body[r0:m.end()])))
+    return captures, steps, muts
+
+
 def lsb_aliases(repo):
     path = os.path.join(repo, "minidump-processor/src/process_state.rs")
     src = strip_comments(open(path).read())
@@ -499,13 +662,17 @@ def main():
         sc = Scan(p, label_of(f))
         fields.setdefault(crate, set()).update(sc.fields)
         hash_fns.setdefault(crate, {"stats"}).update(sc.hash_fns)   # SymbolProvider::stats() -> HashMap<String, SymbolStats>
-    sites, conc, shared = [], [], []
+    sites, conc, shared, cells = [], [], [], []
     for f in FILES:
         crate = f.split("/")[0]
         a, b, c = scan_file(os.path.join(repo, f), label_of(f), fields[crate], hash_fns[crate])
         sites += a
         conc += b
         shared += c
+        cells += scan_cells(os.path.join(repo, f), label_of(f))
+    captures, steps, muts = walk_futures(repo)
+    if not cells:
+        die("no interior-mutable cell found (the extraction is broken: Symbolizer.stats is a Mutex)")
     if not sites:
         die("no hash iteration site found (the extraction is broken: print_json sorts proc_limits out of a HashMap)")
     if not conc:
@@ -528,6 +695,16 @@ def main():
     o.append(";\n".join("  (%s, %s, %s)" % tuple(coq_str(x) for x in t) for t in shared))
     o.append("].")
     o.append("")
+    for title, name, lst in [
+            ("every struct field / constructor call of a cell writable through a shared reference (Mutex, Atomic*, RefCell, Cell, Once*, CacheMap ..)", "interior_mutable_sites", cells),
+            ("what the per-thread walk future of into_process_state uses from the enclosing scopes (shared by all the futures of the join_all)", "walk_future_captures", captures),
+            ("the top-level statements of that future's body, in order: text | captured names used | awaits", "walk_future_steps", steps),
+            ("calls of writing methods of cells inside that body", "walk_future_interior_mutations", muts)]:
+        o.append("(* %s *)" % title)
+        o.append("Definition %s : list (string * string * string) := [" % name)
+        o.append(";\n".join("  (%s, %s, %s)" % tuple(coq_str(x) for x in t) for t in lst))
+        o.append("].")
+        o.append("")
     o.append("(* LinuxStandardBase::from: match arms in source order, (key spellings, field assigned) *)")
     o.append("Definition lsb_aliases : list (list string * string) := [")
     o.append(";\n".join("  ([%s], %s)" % ("; ".join(coq_str(k) for k in ks), coq_str(fld)) for ks, fld in arms))
